@@ -416,7 +416,7 @@ def run(rep):
             e = nt["events"][pos - 1] if pos <= len(nt["events"]) else {"op": "end of trace"}
             short = {k2: e[k2] for k2 in e if k2 != "proj" and e[k2] != EV_FIELDS.get(k2)}
             rep.violation(f"{rname}:{clause}", f"{t['id']} event {pos}: clause {clause} fails at {short}"[:700],
-                          {"kind": "x05", "routine": rname, "scenario": t["scenario"], "position": pos, "clause": clause})
+                          {"kind": "x05", "routine": rname, "scenario": t["scenario"], "position": pos, "clause": clause, "tier": rep.tier, "seed": rep.seed})
     # a corruption only counts when the trace it was derived from is accepted
     counted = 0
     for c, clause in corr:
@@ -475,7 +475,16 @@ def replay(path, rep):
 
     t = algos.run(r["routine"], r["scenario"])
     t["id"] = f"{r['routine']}:{r['scenario'].get('label', '')}"
-    out, _ = validate([normalise(t)], tag="x05replay")
+    twin = None
+    if r.get("clause") == "TwinDiverges":  # the same scenario once more, through the adapter, with logger=None (separate process)
+        d = os.path.join(tlc.OUT, "tmp", f"x05replay-{os.getpid()}")
+        os.makedirs(d, exist_ok=True)
+        try:
+            with open(_twin_worker(r["routine"], r.get("tier", "quick"), int(r.get("seed", 0)), [r["scenario"].get("label", "A")], d)) as f:
+                twin = next((x for x in json.load(f) if x["id"] == t["id"]), None)
+        finally:
+            shutil.rmtree(d, ignore_errors=True)
+    out, _ = validate([normalise(t, twin)], tag="x05replay")
     v = out[t["id"]]
     bad = sorted({c for _, c in v["viol"]})
     print(t["id"], "executed", v["executed"], "starts", v["starts"], "stops", v["stops"], "failing clauses:", bad, "error:", t.get("error"))
